@@ -791,24 +791,63 @@ func (p *proxy) Violation(what string, desc any) {
 var stuck atomic.Bool
 var inconclusiveRuns atomic.Int64
 
-// machineIdle: 1-minute load average below half the number of CPUs.
-func machineIdle() bool {
-	b, err := os.ReadFile("/proc/loadavg")
-	if err != nil {
-		return true
+// calibrate runs a trivial reference task (a few goroutines handing a mutex around, then pure arithmetic) over
+// and over until stop is closed and returns how many units it completed. One unit costs about a millisecond
+// of CPU. It measures whether THIS process was given CPU and its goroutines were scheduled during a watchdog
+// window, independently of what else runs on the machine.
+func calibrate(stop <-chan struct{}) int {
+	units := 0
+	var mu sync.Mutex
+	x := uint32(1)
+	for {
+		select {
+		case <-stop:
+			calSink.Store(x)
+			return units
+		default:
+		}
+		var wg sync.WaitGroup
+		for g := 0; g < 3; g++ {
+			wg.Add(1)
+			go func() {
+				defer wg.Done()
+				for i := 0; i < 50; i++ {
+					mu.Lock()
+					x++
+					mu.Unlock()
+				}
+			}()
+		}
+		wg.Wait()
+		for i := 0; i < 400000; i++ {
+			x = x*1664525 + 1013904223
+		}
+		units++
+		runtime.Gosched()
 	}
-	var l1 float64
-	fmt.Sscan(string(b), &l1)
-	return l1 < float64(runtime.NumCPU())/2
 }
 
+var calSink atomic.Uint32
+
+// harnessDeadline bounds the whole run (set in main): scenarios that would start after it are skipped and counted.
+var harnessDeadline time.Time
+
 // watchdog runs scenario f and never blocks forever. A scenario that exceeds its watchdog (expected:
-// milliseconds) on an idle machine is a genuine hang: "Stuck". On a loaded machine it is inconclusive: it
-// is re-run alone up to twice with a longer watchdog; still too slow and the machine still loaded -> dropped
-// from the verdict and counted; too slow on a machine that has become idle -> Stuck.
+// milliseconds) is re-run ONCE, alone, next to the calibration task. If the re-run exceeds the watchdog too
+// although the calibration task completed `need` units in the meantime (this process had CPU, its goroutines
+// ran, only the scenario's made no progress), a span call never returned: "Stuck", a VIOLATION; the remaining
+// scenarios are skipped. If the process itself was starved the scenario is inconclusive: dropped and counted.
 func watchdog(w *vgen.Writer, what string, desc any, d time.Duration, f func(w *proxy)) bool {
-	for attempt := 0; attempt < 3; attempt++ {
+	need := 300 // units of calibration work (each ~1 ms of CPU): far more than a sequential or racing scenario costs
+	if what == "End storm" {
+		need = 3000 // 10 000 spans per batch
+	}
+	for attempt := 0; attempt < 2; attempt++ {
 		if stuck.Load() {
+			return false
+		}
+		if !harnessDeadline.IsZero() && time.Now().After(harnessDeadline) {
+			w.Tally("skipped:harness time budget used up")
 			return false
 		}
 		px := &proxy{}
@@ -817,8 +856,14 @@ func watchdog(w *vgen.Writer, what string, desc any, d time.Duration, f func(w *
 			defer func() { done <- recover() }()
 			f(px)
 		}()
+		stop := make(chan struct{})
+		units := make(chan int, 1)
+		if attempt == 1 {
+			go func() { units <- calibrate(stop) }()
+		}
 		select {
 		case pan := <-done:
+			close(stop)
 			if pan != nil {
 				w.Violation(fmt.Sprintf("panic in %s: %v", what, pan), desc)
 				return false
@@ -827,19 +872,24 @@ func watchdog(w *vgen.Writer, what string, desc any, d time.Duration, f func(w *
 				op(w)
 			}
 			return true
-		case <-time.After(d << attempt):
+		case <-time.After(d):
 		}
-		if machineIdle() {
+		close(stop)
+		if attempt == 0 {
+			w.Tally("watchdog expired once, re-run alone:" + what)
+			continue
+		}
+		if n := <-units; n >= need {
 			stuck.Store(true)
 			buf := make([]byte, 1<<16)
-			n := runtime.Stack(buf, true)
-			w.Violation("Stuck: "+what+" did not finish within "+(d<<attempt).String()+" on an idle machine (a span call never returned: deadlock / lock left held)",
-				map[string]any{"case": desc, "goroutines": string(buf[:n])})
+			k := runtime.Stack(buf, true)
+			w.Violation(fmt.Sprintf("Stuck: %s did not finish within %s, twice, the second time alone while a reference task in this process completed %d units of work (a span call never returned: deadlock / lock left held)", what, d, n),
+				map[string]any{"case": desc, "goroutines": string(buf[:k])})
 			return false
 		}
 	}
 	inconclusiveRuns.Add(1)
-	w.Tally("inconclusive:watchdog under load:" + what)
+	w.Tally("inconclusive:watchdog while this process was starved:" + what)
 	return false
 }
 
@@ -920,7 +970,7 @@ func raceCase(w *vgen.Writer, r *vgen.Rand, tracing bool, kind string, storm boo
 		}
 	}
 	desc := map[string]any{"fragment": "racing", "processors": P, "spans": K, "goroutines": G, "runtime_trace": tracing, "storm": storm, "limits": lims}
-	ok := watchdog(w, "racing goroutines", desc, 60*time.Second, func(w *proxy) {
+	ok := watchdog(w, "racing goroutines", desc, 30*time.Second, func(w *proxy) {
 		e := newEnvLim(P, lims)
 		spans := make([]trace.Span, K)
 		tracks := make([]*spanTrack, K)
@@ -1009,7 +1059,7 @@ func stormLoop(w *vgen.Writer, r *vgen.Rand, tracing bool, trials int, kind stri
 			n = min(n, 400) // these batches sleep per span: keep them short
 		}
 		desc := map[string]any{"fragment": "end-storm", "runtime_trace": tracing, "spans": n, "goroutines": G, "processors": P, "limits": lims, "end_while_panicking": panicking, "gated_child": gated}
-		watchdog(w, "End storm", desc, 120*time.Second, func(w *proxy) {
+		watchdog(w, "End storm", desc, 60*time.Second, func(w *proxy) {
 			e := newEnvLim(P, lims)
 			spans := make([]trace.Span, n)
 			tracks := make([]*spanTrack, n)
@@ -1142,6 +1192,7 @@ func main() {
 	flag.BoolVar(&skipLiveAttrs, "skip-live-attrs", false, "race child: leave Attributes() on the live span out of the accessor calls (F-C10-2)")
 	o := vgen.ParseFlags()
 	r := vgen.NewRand(o.Seed)
+	harnessDeadline = time.Now().Add(time.Duration(o.Count(170, 2400)) * time.Second)
 	w := vgen.NewWriter(o.Out, "C10.Spec C10.Model C10.Corr", "case", 96)
 	w.Rule = "sequential programs of End/SetAttributes/AddEvent/RecordError/AddLink/SetName/SetStatus/IsRecording/child Start on one span (compared with the model and judged by the spec), " +
 		"and histories of 2-16 goroutines racing the same calls on 1-3 shared spans plus End storms, with and without runtime/trace, judged by the spec; " +
